@@ -209,11 +209,20 @@ def gen_int(tape, label, noncanon, maxw=18, signed=False):
     return t
 
 
-def gen_float(tape, label, noncanon):
-    kind = tape.weighted([(3, 0), (3, 1), (2, 2), (2 if noncanon else 0, 3)], label + ".fk")
+def gen_float(tape, label, noncanon, dotless=False):
+    if dotless:
+        # a column in which no value has a decimal point (narrowPeak -1 columns, integer-valued bedGraph)
+        kind = tape.weighted([(3, 0), (3, 4), (2 if noncanon else 0, 5)], label + ".fk")
+    else:
+        kind = tape.weighted([(3, 0), (3, 1), (2, 2), (2 if noncanon else 0, 3), (1, 4)], label + ".fk")
     ip = _digits(tape, 4, label + ".ip")
     if kind == 0:
         t = ip
+    elif kind == 4:
+        t = "-" + ip
+    elif kind == 5:
+        e = tape.draw(5, label + ".e")
+        t = ("-" if tape.boolean(label + ".neg") else "") + "123456789"[tape.draw(9, label + ".m")] + f"e{e}"
     elif kind == 1:
         t = ip + "." + _digits(tape, 3, label + ".fp")
     elif kind == 2:
@@ -263,7 +272,7 @@ def gen_field(tape, kind, label, noncanon, ctx):
     if kind == "sint":
         return gen_int(tape, label, noncanon, maxw=9, signed=True)
     if kind == "float":
-        return gen_float(tape, label, noncanon)
+        return gen_float(tape, label, noncanon, dotless=bool(ctx.get("float_dotless")))
     if kind == "optint":
         # the "all rows '.'" / "no row '.'" / mixed decision is taken per file through ctx
         mode = ctx.get("optint_mode", 0)
@@ -361,6 +370,7 @@ def gen_records(tape, fmt, max_records, noncanon=True, min_records=1, style=None
         ctx["optint_mode"] = tape.weighted([(6, 0), (0 if style.get("no_missing") else 1, 1), (mixed_w, 2)], "optint_mode")
     ctx["list_trailing_comma"] = (tape.boolean("list_tc", 1, 3) and not style.get("no_list_trailing_comma")) \
         if any(k == "listint" for _, k in fmt.fields) else False
+    ctx["float_dotless"] = bool(style.get("float_dotless"))
     if any(k == "vcfgt" for _, k in fmt.fields):
         ctx["n_samples"] = 1 + tape.draw(3, "n_samples")
         ctx["gt_extra"] = tape.boolean("gt_extra", 1, 2)
@@ -410,6 +420,8 @@ def gen_style(tape, fmt, allow_crlf=True, allow_nofinal=True, allow_header=True)
         "header": bool(allow_header and fmt.header and tape.boolean("header", 2, 3)),
         "wrap": 0,
     }
+    if any(k == "float" for _, k in fmt.fields) and tape.boolean("float_dotless", 1, 5):
+        st["float_dotless"] = True
     if fmt.layout == "fastaw":
         st["wrap"] = tape.weighted([(2, 60), (2, 1), (2, 2), (2, 3), (2, 5), (1, 7), (1, 12)], "wrap")
     if fmt.header == "vcf":
